@@ -334,6 +334,7 @@ impl Property for C19 {
             };
 
         let mut follow_reference: BTreeMap<usize, Vec<u8>> = BTreeMap::new();
+        let mut session_twins = 0usize;
         // interrupt positions
         let mut positions: Vec<Interrupt> = (0..=base.log.len()).map(Interrupt::AtEvent).collect();
         let prints = base.log.iter().filter(|e| matches!(e.kind, EvKind::Print | EvKind::Write)).count();
@@ -489,6 +490,25 @@ impl Property for C19 {
                 }
                 if res.log.get(e).map(|ev| ev.kind == EvKind::Read && ev.file >= n_main_files).unwrap_or(false) {
                     out.probe("interrupt_during_joined_file_load", 1);
+                    // a session: the statement is given again after the interrupted attempt (same Tables, flag armed again
+                    // as src/main.rs does before every statement). The interrupted attempt may leave nothing behind: the
+                    // second execution prints what the uninterrupted query prints
+                    if !follow && out.violation.is_none() && res.status == Status::Ok && base.status == Status::Ok && joined_bad_at.is_none() && session_twins < 4 {
+                        session_twins += 1;
+                        let mut sspec = make_spec(Some(pos.clone()));
+                        sspec.repeat = 2;
+                        sspec.rearm_between_repeats = true;
+                        sspec.event_budget *= 2;
+                        let sres = run(&mut out, &format!("{} then the statement again in the same session", label), &sspec, false);
+                        let mut expected = records(&res);
+                        expected.extend(base_records.clone());
+                        if sres.status != Status::Ok {
+                            fail(&mut out, "c19.session_after_interrupt", format!("statement repeated after an interrupted attempt reports {}", status_label(&sres.status)));
+                        } else if records(&sres) != expected {
+                            fail(&mut out, "c19.session_after_interrupt", format!("statement repeated after an attempt interrupted during the joined-file load prints {} - the uninterrupted query prints {}", show(&records(&sres)[records(&res).len().min(records(&sres).len())..]), show(&base_records)));
+                        }
+                        out.probe("statement_repeated_in_session_after_interrupted_join_load", 1);
+                    }
                 }
                 if matches!(pos, Interrupt::AtPrint(_)) {
                     out.probe("interrupt_inside_println", 1);
